@@ -264,6 +264,33 @@ theorem versioned_deser_result {α} (rest : Json → α) (ms : Option (List Mapp
       simp only [Option.getD_some] at h
       simp only [deserVersioned, hg, h, bindE_ok]
 
+/-- **versioned_deser_extras**: the undeclared keys a `Versioned` class keeps (`keep_undefined`, additional
+    properties) when deserializing an old document are exactly the undeclared keys of the *converted* document:
+    legacy keys the history moved or deleted are gone, non-field keys the history added are there — for every
+    setting of `keep_undefined` and of additional properties, every set of declared fields -/
+theorem versioned_deser_extras (fields : List String) (keep : Option Bool) (addl : Bool)
+    (ms : Option (List Mapping)) (d d' : Json) (v : Int)
+    (hv : docVersion d = some v) (h1 : 1 ≤ v) (h : convertDict d (ms.getD []) = .ok d') :
+    deserExtras fields keep addl ms d = .ok (undeclaredKept fields keep addl d')
+    ∧ deserExtras fields keep addl ms d' = deserExtras fields keep addl ms d :=
+  ⟨versioned_deser_result _ ms d d' v hv h1 h, versioned_deser_equiv _ ms d d' v hv h1 h⟩
+
+/-- non-vacuity for the extras: history renames the non-field key `full` to the field `name`, deletes the legacy
+    key, adds the non-field marker `migrated`; with `keep_undefined=True` on a class allowing additional
+    properties the instance keeps `note` and `migrated` (not `full`); with the default nothing is kept -/
+theorem deser_extras_example :
+    (match deserExtras ["name", "version"] (some true) true
+        (some [[("name", .move ["full"]), ("full", .deleted)], [("migrated", .const (.bool true))]])
+        (.obj [("version", .int 1), ("full", .str "j"), ("note", .str "x")]) with
+      | .ok ex => Json.beq (.obj ex) (.obj [("note", .str "x"), ("migrated", .bool true)])
+      | .error _ => false) = true
+    ∧ (match deserExtras ["name", "version"] none true
+        (some [[("name", .move ["full"]), ("full", .deleted)], [("migrated", .const (.bool true))]])
+        (.obj [("version", .int 1), ("full", .str "j"), ("note", .str "x")]) with
+      | .ok ex => ex.isEmpty
+      | .error _ => false) = true := by
+  decide
+
 /-- **new_instance_latest**: `Versioned.__init__` forces `version = len(_versions_mapping) + 1` (1 without the
     attribute), whatever the caller passed, and that value is a positive integer -/
 theorem new_instance_latest (ms : Option (List Mapping)) (kw : Obj) :
